@@ -278,3 +278,11 @@ Theorem load_error_exit_gen f all fail si l p :
 Proof.
   intros Hf I H S. apply exit_iff_gen. split; [exact Hf|]. exists p. repeat split; auto. apply load_error_exits. exact H.
 Qed.
+
+Theorem undecodable_conf_fails_gen chain :
+  load_fails chain = true <-> exists c, In c chain /\ (c = ConfSyntaxError \/ c = ConfMistyped).
+Proof.
+  unfold load_fails. rewrite existsb_exists. split; intros [c [I H]]; exists c; (split; [exact I|]).
+  - destruct c; simpl in H; auto; discriminate.
+  - destruct H as [->| ->]; reflexivity.
+Qed.
